@@ -607,6 +607,38 @@ func (c *FC) requireCutFrom(rule, what string, start *ssa.BasicBlock, guard []At
 	return c.recordCut(rule, key, guard, res, len(targets))
 }
 
+// requireEqual: every target lies behind `x == n` — tested as one equality, or as the two
+// one-sided tests `!(x < n)` and `x < n+1` (`if x < n || x > n { reject }`). Records the
+// cut and fail-arm obligations and returns the rejection atoms for the exactness rule.
+func (c *FC) requireEqual(rule, what, x string, n int, targets []ssa.Instruction) []Atom {
+	eq := A(fmt.Sprintf("(%d == %s)", n, x))
+	for _, ii := range c.ifs {
+		if ii.atom.Key == eq.Key {
+			c.requireCut(rule, what, []Atom{eq}, targets)
+			c.requireFailArm(rule, what, []Atom{eq}, false)
+			return []Atom{{Key: eq.Key, Pol: false}}
+		}
+	}
+	lower := A(fmt.Sprintf("!(%s < %d)", x, n))
+	upper := A(fmt.Sprintf("(%s < %d)", x, n+1))
+	seenLower := false
+	for _, ii := range c.ifs {
+		if ii.atom.Key == lower.Key {
+			seenLower = true
+		}
+	}
+	if !seenLower {
+		// neither form present: report against the canonical one
+		c.requireCut(rule, what, []Atom{eq}, targets)
+		return []Atom{{Key: eq.Key, Pol: false}}
+	}
+	c.requireCut(rule, what+"/not-shorter", []Atom{lower}, targets)
+	c.requireFailArm(rule, what+"/not-shorter", []Atom{lower}, false)
+	c.requireCut(rule, what+"/not-longer", []Atom{upper}, targets)
+	c.requireFailArm(rule, what+"/not-longer", []Atom{upper}, false)
+	return []Atom{{Key: lower.Key, Pol: !lower.Pol}, {Key: upper.Key, Pol: !upper.Pol}}
+}
+
 func guardString(guard []Atom) string {
 	var parts []string
 	for _, g := range guard {
